@@ -294,8 +294,26 @@ Fixpoint dec_msgs (fuel : nat) (l : list Z) : list msg :=
 (* kind 1101 (writer): in = messages; out = bytes the writer must put on the wire
    kind 1102 (reader): in = [maxmsg; nbytes; bytes...]; out = messages delivered (flat) ++ [-1; end code] *)
 Definition uploaded_of (m : msg) : Z := match m with PieceM _ _ d => zlen d | _ => 0 end.
+
+(* the writer answers a second piece for the same (index, begin, length) with a reject and
+   does not count it (servedRequests) *)
+Fixpoint mem3 (k : Z * Z * Z) (l : list (Z * Z * Z)) : bool :=
+  match l with
+  | [] => false
+  | (a, b, c) :: r => let '(x, y, z) := k in ((a =? x) && (b =? y) && (c =? z)) || mem3 k r
+  end.
+
+Fixpoint served_filter (served : list (Z * Z * Z)) (ms : list msg) : list msg :=
+  match ms with
+  | [] => []
+  | PieceM i b d :: r =>
+      if mem3 (i, b, zlen d) served then Reject i b (zlen d) :: served_filter served r
+      else PieceM i b d :: served_filter ((i, b, zlen d) :: served) r
+  | m :: r => m :: served_filter served r
+  end.
+
 Definition run_writer (inp : list Z) : list Z :=
-  let ms := dec_msgs (length inp) inp in
+  let ms := served_filter [] (dec_msgs (length inp) inp) in
   flat_map enc_go ms ++ [-1; fold_right (fun m a => uploaded_of m + a) 0 ms].
 
 Definition end_code (e : rend) : Z :=
@@ -312,8 +330,14 @@ Definition run_reader (inp : list Z) : list Z :=
 
 (* monitors *)
 Definition mon_writer (inp obs : list Z) : bool :=
-  let ms := dec_msgs (length inp) inp in
+  let ms := served_filter [] (dec_msgs (length inp) inp) in
   list_eqb_Z (flat_map encode ms ++ [-1; fold_right (fun m a => uploaded_of m + a) 0 ms]) obs.
+
+(* kind 1104: messages pushed through the real writer and then the real reader must come back
+   identical (the property's round trip, stated on the implementation's own output) *)
+Definition run_roundtrip (inp : list Z) : list Z :=
+  flat_map enc_msg (served_filter [] (dec_msgs (length inp) inp)).
+Definition mon_roundtrip (inp obs : list Z) : bool := list_eqb_Z (run_roundtrip inp) obs.
 
 (* every delivered message respects the allocation bound; request lengths and piece data <= 16 KiB *)
 Definition msg_bounded (maxmsg : Z) (m : msg) : bool :=
